@@ -576,11 +576,13 @@ pub fn one_run(ctx: &Ctx, out: &mut Outcome, run_seed: u64) {
                 // foreign key / foreign protocol (three flavours) / wrong host list
                 let fk = rkey(&mut r);
                 let other_host = vec![addr4(0, 1, 5000), addr4(0, 0, 5001)];
+                // one bit of any of the eight bytes of the protocol id (the sealed data must bind all of it)
+                let fp = protocol ^ (1u64 << r.below(64));
                 let specs: Vec<(&str, Option<[u8; 32]>, Option<u64>, Option<u64>, Option<Vec<SocketAddr>>)> = vec![
                     ("foreign_key", Some(fk), None, None, None),
-                    ("foreign_protocol", None, Some(protocol ^ 1), None, None),
-                    ("foreign_protocol", None, Some(protocol ^ 1), Some(protocol), None),
-                    ("foreign_protocol", None, None, Some(protocol.wrapping_add(1)), None),
+                    ("foreign_protocol", None, Some(fp), None, None),
+                    ("foreign_protocol", None, Some(fp), Some(protocol), None),
+                    ("foreign_protocol", None, None, Some(fp), None),
                     ("wrong_host", None, None, None, Some(other_host)),
                 ];
                 for (class, k, aadp, pubp, hosts) in specs {
